@@ -191,12 +191,12 @@ OPEN_DEFECTS = {
     "D15": ("coarse fragments are written with the fragment's own name for every node: {#A=[#B][$][#C]}", ["C08"]),
     "D16": ("element masses count a hydrogen per open descriptor; labels ending in a digit are read as orders in the tables", ["C17"]),
     "D17": ("the RDKit bridge re-perceives aromaticity and rewrites pentavalent N; UFF fails on order-0 bonds", ["C18"]),
-    "D18": ("a dangling ring index inside an all-atom fragment is accepted; a lone node without fragment resolves to nothing", ["C20"]),
+    "D18": ("a lone node without fragment and without edges resolves to an empty molecule (the dangling ring index inside an all-atom fragment, the other half of D18, is repaired: 2cec6f4)", ["C20"]),
 }
 
 
 def prop(pid, rules, decided, undecided, floors=None, assumptions=None):
-    reported = {"D5", "D6", "D7", "D15", "D17", "D18"}      # rules/gaps.py states a necessary condition for these: KNOWN-FINDING lines
+    reported = {"D5", "D6", "D7", "D15", "D17"}      # rules/gaps.py states a necessary condition for these: KNOWN-FINDING lines
     known = ["%s (%s%s)" % (k, v[0], ", reported as KNOWN-FINDING" if k in reported else ", not reported by any rule") for k, v in OPEN_DEFECTS.items() if pid in v[1]]
     if known:
         undecided = undecided + "; KNOWN VIOLATIONS of the behaviour, found by testing (DESIGN 16): " + "; ".join(known)
@@ -352,6 +352,27 @@ _LATER = {
     "C20": "the ring scan completes a marker that ends the text; key-less annotation values reach bind as positional arguments; the tokenizer keeps ring digits in the text",
 }
 for _pid, _txt in _LATER.items():
+    _sp = PROPERTIES[_pid]
+    _sp["decided"] = _sp["decided"] + "; " + _txt
+    _sp["explanation"] = EXPL + " Decided for %s: %s. Not decided: %s." % (_pid, _sp["decided"], _sp["undecided"])
+
+# clauses added by the seventh round (DESIGN.md section 18)
+_ROUND7_TEXT = {
+    "C02": "no container attribute of the resolver that is filled while a level is resolved survives into the next level",
+    "C04": "the end-of-branch test looks past everything the grammar allows between a node and the closing brace (digits, %, |, every order symbol; a regular expression is parsed)",
+    "C05": "between two repetitions of a multiplied branch only the cursor survives: no other loop-carried variable feeds _expand_branch",
+    "C06": "the constructors are read-only on the base graph; no container attribute filled per level survives into the next level",
+    "C07": "a helper that returns the bond symbol or '' is judged as the edge-needs-symbol predicate it contains (truth table against the OpenSMILES rule)",
+    "C08": "a helper that returns the bond symbol or '' is judged as the edge-needs-symbol predicate it contains (truth table against the OpenSMILES rule)",
+    "C10": "no container attribute of the resolver that is filled while a level is resolved survives into the next level",
+    "C11": "a `.` in front of one ring marker is the order of that ring bond only (zero-order ring bonds attach virtual nodes)",
+    "C12": "the constructors are read-only on the base graph they are handed (effect summaries, any depth)",
+    "C14": "nothing in front of the float cast rejects or rewrites a numeric spelling (abstract execution on +1, -0.25, .5, 1., 1e-1, 2.5E-1 ...)",
+    "C18": "the graph is read off the molecule that was handed in (no AddHs / Kekulize / SanitizeMol derivative, first conformer whatever its id); the weights in the bead's sum are the weights in its divisor",
+    "C19": "the cis/trans correction moves the connected component of the cut graph that contains the target (no fixed number of pieces, no complement of the anchor's side)",
+    "C20": "a ring index that is never closed in an all-atom fragment is rejected before the lenient pysmiles read (per-index marker count)",
+}
+for _pid, _txt in _ROUND7_TEXT.items():
     _sp = PROPERTIES[_pid]
     _sp["decided"] = _sp["decided"] + "; " + _txt
     _sp["explanation"] = EXPL + " Decided for %s: %s. Not decided: %s." % (_pid, _sp["decided"], _sp["undecided"])
